@@ -98,6 +98,8 @@ type replica struct {
 	ctxs       map[int]*snapCtx
 	inUpdate   bool
 	notifs     [][2]uint64
+	inRecover  bool     // inside RecoverFromSnapshot
+	recNotifs  []uint64 // what the applied-index listener was told during it
 }
 
 type evalImage struct {
@@ -232,6 +234,9 @@ func (w *world) newFSM(r *replica, fs *crashfs.FS) *fsm.FSM {
 	// the applied-index listener (what a follower's notification queue hangs on): when it is told about
 	// an index, a read on the same node must already observe it (C11, first sentence)
 	af := func(applied uint64) {
+		if r.inRecover {
+			r.recNotifs = append(r.recNotifs, applied)
+		}
 		if self == nil || !r.inUpdate {
 			return
 		}
@@ -1390,7 +1395,9 @@ func (w *world) recoverStep(r *replica, st *Step) {
 	r.startedIdx.Store(maxU(r.startedIdx.Load(), w.idxAt(b.pos)))
 	var err error
 	r.inStep.Store(true)
+	r.inRecover, r.recNotifs = true, nil
 	cp := guard(func() { err = r.sm.RecoverFromSnapshot(hr, stop) })
+	r.inRecover = false
 	r.inStep.Store(false)
 	quiesce()
 	plan := w.ioErr
@@ -1429,6 +1436,25 @@ func (w *world) recoverStep(r *replica, st *Step) {
 	w.out.Probe("install-complete")
 	if oldPos != b.pos {
 		w.out.Probe("install-advanced")
+	}
+	// C11: a table that reaches a leader index through a snapshot install has applied it just as well as through
+	// updates, and there may be no update for a long time: the applied-index listener has to hear it now
+	if li := w.leader[b.pos]; li != 0 {
+		told := false
+		for _, n := range r.recNotifs {
+			if n == li {
+				told = true
+			}
+		}
+		switch {
+		case told:
+			w.out.Probe("install-announced-leader-index")
+		case w.cfg.Prop == "C11":
+			w.fail("C11", "install-not-announced", "install-not-announced", "replica %d installed a snapshot that takes the table to leader index %d, but the applied-index listener was told %v: a caller waiting for a revision up to %d on this node stays unanswered until the next update or its deadline", r.id, li, r.recNotifs, li)
+			return
+		default:
+			w.out.Probe("other-property:C11/install-not-announced")
+		}
 	}
 	w.checkState(r, "C08", "after-install")
 	w.crossCheck()
